@@ -145,6 +145,10 @@ func initSymIntrinsics() {
 			m.opts.MaxLen = intArg(m, a[0])
 			return nil
 		},
+		"SetMaxMaterialise": func(m *Machine, c *frame, fn *ssa.Function, a []value) value {
+			m.opts.MaxMat = intArg(m, a[0])
+			return nil
+		},
 		"SetLoopBudget": func(m *Machine, c *frame, fn *ssa.Function, a []value) value {
 			m.opts.LoopBudget = intArg(m, a[0])
 			return nil
